@@ -22,6 +22,7 @@
    (true: trial registration on a scratch mux, error instead of a later panic). *)
 From Coq Require Export List NArith ZArith Bool.
 From GS Require Export HttpCfg.
+From GS Require Import LTS.
 Export ListNotations.
 
 Inductive fsm := FNew | FBooting | FRunning | FReloading | FStopping | FStopped | FError | FUnknown.
@@ -315,6 +316,18 @@ Section Model.
 
   Definition srv_at (s : state) (sid : nat) : option srv := nth_error (servers s) sid.
 
+  (* the listener of the server whose Shutdown is in flight may still accept for an instant:
+     http.Server.Shutdown closes it some time between its call and its return *)
+  Definition closing (s : state) (a : str) : bool :=
+    match kpc s with
+    | KStopWait sid | KCleanup sid =>
+      match srv_at s sid with
+      | Some sv => str_eqb (addr (s_cfg sv)) a && sv_pc_eqb (s_pc sv) SvListening
+      | None => false
+      end
+    | _ => false
+    end.
+
   (* labels other than LQuiesce *)
   Definition step_core (s : state) (l : label) : option state :=
     if crashed s then None else
@@ -350,7 +363,9 @@ Section Model.
       end
     | LRunServeErr =>                      (* select: serverErrors; setStateError; return *)
       match rpc s, errs s with
-      | RSelect, _ :: rest => Some (with_rpc (with_fsm (with_errs s rest) FError) (RRet RHttpErr))
+      | RSelect, _ :: rest =>        (* the deferred runCancel() runs as Run returns *)
+        Some (with_rpc (with_fsm (with_errs (with_env s (stoppers s) (stop_req s) (cancelled s) true) rest) FError)
+                       (RRet RHttpErr))
       | _, _ => None
       end
     | LRunLockStop =>
@@ -548,7 +563,9 @@ Section Model.
       | _ => None
       end
     | LObsState f => if fsm_eqb f (fsm_st s) then Some s else None
-    | LObsDial a b => if Bool.eqb (bound_any (net s) a) b then Some s else None
+    | LObsDial a b =>
+      (* a dial that races with an in-flight Shutdown may still be accepted by the closing listener *)
+      if Bool.eqb (bound_any (net s) a) b || (b && closing s a) then Some s else None
     | LObsServe a tbl =>
       match net_get (net s) a with
       | Some (Own sid) =>
@@ -681,3 +698,12 @@ Definition validated_now : bool := false.
    list panic? *)
 Definition predicts_crash (validated : bool) (mux_ok : list str -> bool) (rs : list route) : bool :=
   new_config_ok validated mux_ok rs && negb (mux_ok (map rpath rs)).
+
+(* ---- the acceptor instance used by the correspondence check (LTS.accept_from) ---- *)
+Definition http_accept (validated : bool) (mux_ok : list str -> bool) (fuel : nat) (c0 : config)
+  (t : list event) : list state * bool :=
+  accept_from state label event (step validated mux_ok) obs (taus) (vis) event_eqb key fuel [init c0] t.
+
+Definition http_depth (validated : bool) (mux_ok : list str -> bool) (fuel : nat) (c0 : config)
+  (t : list event) : nat :=
+  accept_depth state label event (step validated mux_ok) obs (taus) (vis) event_eqb key fuel [init c0] t.
